@@ -17,7 +17,7 @@ git -C "$wt" checkout -q --detach "$(git -C /repo rev-parse HEAD)" 2>/dev/null
 git -C "$wt" checkout -- . || exit 2
 if ! git -C "$wt" apply "$patch"; then echo "patch does not apply"; exit 2; fi
 mkdir -p "$mv"
-rsync -a --delete --exclude target --exclude build.log /verif/sim/ "$mv/sim/"
+rsync -a --delete --exclude target --exclude build.log "${VERIF_SIM_SRC:-/verif/sim}/" "$mv/sim/"
 sed -i "s#/repo/fidget#$wt/fidget#" "$mv/sim/Cargo.toml"
 cp /verif/run.sh /verif/known_findings.txt "$mv/"
 rm -rf "$mv/replays" "$mv/evidence"; mkdir -p "$mv/evidence"
